@@ -84,8 +84,9 @@ DetailedBalance ==
   SpecEqualReorg(v) =>
     LET a == AlgoRate12(v, 1)
         b == AlgoRate21(v, 1)
-    IN  /\ a.lam = b.lam
-        /\ LnRatioScaled(a, b) = SpecLnRatio(v) * a.xd * b.xd
+    IN  /\ a.lam = b.lam /\ a.xd = b.xd
+        \* ln(k12/k21) = (a.xn - b.xn)/xd   (common denominator; keeps TLC's 32-bit integers small)
+        /\ a.xn - b.xn = SpecLnRatio(v) * a.xd
 \* positive: J2 > 0 and a positive reorganisation energy under the square root
 Positive == LET a == AlgoRate12(v, 1)
                 b == AlgoRate21(v, 1)
@@ -98,6 +99,13 @@ LinearInJ2 == /\ AlgoRate12(v, v.jm) = [AlgoRate12(v, 1) EXCEPT !.j2 = v.jm * @]
 \* negative elsewhere (normal and inverted region): k <= k0
 ExponentNonPositive == /\ SpecRate12(v, 1).xn <= 0 /\ SpecRate21(v, 1).xn <= 0
                        /\ (SpecRate12(v, 1).xn = 0 <=> SpecLnRatio(v) = SpecLam12(v))
+\* Representability guard: a rate exp(-barrier) with barrier = -xn/xd (in kT) above about 690 is
+\* below the smallest normal double.  The ratio law is asserted against the real code only where BOTH
+\* barriers are at most 650 (rates > 1e-300 times the prefactor); outside nothing is asserted.  There is
+\* no other threshold: a barrier of 600 kT (20 K, 1 eV) obeys the law like a barrier of 6 kT.
+MaxBarrier == 650
+Representable(w) == /\ -SpecRate12(w, 1).xn <= MaxBarrier * SpecRate12(w, 1).xd
+                    /\ -SpecRate21(w, 1).xn <= MaxBarrier * SpecRate21(w, 1).xd
 NeutralIgnoresField == Charge(v.c) = 0 => SpecLnRatio(v) = SiteE1(v) - SiteE2(v)
 \* reversing the field direction or the carrier sign reverses the field term
 FieldAntisymmetric ==
@@ -112,6 +120,7 @@ Vector == Emit =>
                  fr |-> Dot(v.F, v.R), lin |-> v.jm,
                  \* each direction separately: ln(k/k0) = xn/xd where k0 is the rate of the same
                  \* pair at vanishing exponent (driving force = reorganisation energy l12 / l21)
+                 rep |-> Representable(v),
                  l12 |-> SpecLam12(v), l21 |-> SpecLam21(v),
                  x12n |-> SpecRate12(v, 1).xn, x12d |-> SpecRate12(v, 1).xd,
                  x21n |-> SpecRate21(v, 1).xn, x21d |-> SpecRate21(v, 1).xd]))
